@@ -33,7 +33,7 @@ func VerifC14Box() {
 		label = "grid"
 		n = from + verifChoice("frames", maxN-from+1)
 		f = 1 + verifChoice("fanout", maxF)
-		if f <= 3 {
+		if f <= verifParam("revMaxF", 3) {
 			reversed = verifChoice("reversed", 2) == 1
 		}
 	case 1:
